@@ -114,8 +114,15 @@ class Folder:
                 return table[type(op)]()
             raise Unfoldable("comparison %s" % type(op).__name__)
         if isinstance(e, ast.BoolOp):
-            vals = [self.fold(v, env) for v in e.values]
-            return all(vals) if isinstance(e.op, ast.And) else any(vals)
+            # Python semantics: the operand that decides is the value
+            val = None
+            for v in e.values:
+                val = self.fold(v, env)
+                if isinstance(e.op, ast.Or) and val:
+                    return val
+                if isinstance(e.op, ast.And) and not val:
+                    return val
+            return val
         if isinstance(e, ast.UnaryOp) and isinstance(e.op, ast.Not):
             return not self.fold(e.operand, env)
         if isinstance(e, ast.Subscript) and isinstance(e.slice, ast.Slice):
